@@ -82,6 +82,18 @@ def _benc(rnd, b):
 _ENC_STREAM = __import__("random").Random(20260930)
 
 
+def _same_object_twice(parts):
+    """one object in two roles: now and then a later part of a composed distribution is the very object of an earlier part of the same dimension
+    (`CompositeDistribution([prior] * n)`, the same prior for two parameter blocks); the expression is the same as with two equal objects"""
+    if _ENC_STREAM.random() >= 0.35:
+        return
+    for j in range(len(parts) - 1, 0, -1):
+        for i in range(j):
+            if parts[i].d == parts[j].d:
+                parts[j] = parts[i]
+                return
+
+
 def _normalize_history(rnd, obj):
     """'after normalize()' holds after any history with at least one call: call it 1-3 times"""
     for _ in range(rnd.choice([1, 1, 2, 3])):
@@ -148,10 +160,14 @@ def _leaf(rnd, d, normalized=False, allow=("normaldiag", "normalscalar", "normal
         cov = spd(rnd, d)
     if d == 1:
         cov = cov.reshape(1, 1)
-    obj = D.Normal(mu.copy(), cov.copy(), lower_bounds=None if lb is None else lb.copy(), upper_bounds=None if ub is None else ub.copy())
+    inv = np.linalg.inv(cov)
+    extra = {}
+    if _ENC_STREAM.random() < 0.3:
+        # the optional argument for callers who have the inverse at hand (the same matrix inverse the constructor would compute)
+        extra["inverse_covariance"] = inv.copy()
+    obj = D.Normal(mu.copy(), cov.copy(), lower_bounds=None if lb is None else lb.copy(), upper_bounds=None if ub is None else ub.copy(), **extra)
     if normalized:
         _normalize_history(rnd, obj)
-    inv = np.linalg.inv(cov)
     L = np.linalg.cholesky(cov)
     return Node(obj, f"normalfull {vhex(mu)} {mhex(inv)} {mhex(L)} {int(normalized)} {box_str(lb, ub)}",
                 {"kind": k, "mu": mu.ravel().tolist(), "cov": cov.tolist()}, d, k, normalizable=True, lb=lb, ub=ub)
@@ -173,6 +189,7 @@ def _tree(rnd, d, depth, normalized=False, for_generate=False):
     if w == "additive":
         k = rnd.randint(1, 3)
         parts = [tree(rnd, d, depth - 1) for _ in range(k)]
+        _same_object_twice(parts)
         lb, ub = rand_bounds(rnd, d, 0.3)
         cls = rnd.choice([D.AdditiveDistribution, D.BayesRule])
         # the list of terms may be assembled by the constructor alone or grow afterwards through add_distribution(), with evaluations in between
@@ -193,6 +210,7 @@ def _tree(rnd, d, depth, normalized=False, for_generate=False):
         cuts = sorted(rnd.sample(range(1, d), k - 1))
         dims = [b - a for a, b in zip([0] + cuts, cuts + [d])]
         parts = [tree(rnd, di, depth - 1, for_generate=for_generate) for di in dims]
+        _same_object_twice(parts)
         lb, ub = (None, None) if for_generate else rand_bounds(rnd, d, 0.25)
         obj = D.CompositeDistribution([p.obj for p in parts], lower_bounds=_benc(rnd, lb), upper_bounds=_benc(rnd, ub))
         return Node(obj, f"composite {k} " + " ".join(p.proto for p in parts) + " " + box_str(lb, ub), {"kind": w, "dims": dims, "parts": [p.desc for p in parts]},
